@@ -686,6 +686,8 @@ pub fn check(prop: &'static dyn Prop, opts: CheckOpts) -> i32 {
 
     // 3. determinism recheck: a sample of runs executed twice more, with other worker counts and chunkings
     let recheck_n = if opts.tier == "quick" { 64.min(total) } else { 400.min(total) };
+    // (a larger sample on request, for proving determinism after a new seam: DSIM_RECHECK_N=5000)
+    let recheck_n = std::env::var("DSIM_RECHECK_N").ok().and_then(|v| v.parse::<u64>().ok()).map(|n| n.min(total)).unwrap_or(recheck_n);
     let mut mismatches = 0u64;
     if exit == 0 && recheck_n > 0 {
         let p1 = Pool { prop, workers: opts.workers, duck: opts.duck.clone(), avoid: avoid.clone() };
